@@ -201,6 +201,9 @@ fn float_case<T: Elem + Ax>(case: u64, args: &Args, ev: &mut Ev) {
         6..=8 => rng.range(41, 1000),
         _ => rng.range(1001, 10000),
     };
+    // a few very long axes in every run (tens of thousands of knots and more)
+    let very_long = case % 60 == 13 && !cfg!(miri);
+    let n = if very_long { *rng.pick(&[32768usize, 32769, 40000, 65537, 131072]) } else { n };
     let (xs, class): (Vec<T>, String) = if rng.chance(0.15) {
         (gen_mixed(&mut rng, n), "mixed-magnitude".to_string())
     } else {
@@ -215,13 +218,40 @@ fn float_case<T: Elem + Ax>(case: u64, args: &Args, ev: &mut Ev) {
         ev.add("skipped_precondition", 1);
         return;
     }
+    let mut xs = xs;
+    if very_long && rng.chance(0.7) {
+        // a data gap at the end (and sometimes at the start): the end interval is much wider
+        // than the mean spacing
+        let span = xs[n - 1] - xs[0];
+        let wide = span * T::of(0.05);
+        if (xs[n - 1] + wide).is_finite() && xs[n - 1] + wide > xs[n - 1] {
+            xs[n - 1] = xs[n - 1] + wide;
+        }
+        if rng.chance(0.5) && (xs[0] - wide).is_finite() && xs[0] - wide < xs[0] {
+            xs[0] = xs[0] - wide;
+        }
+    }
     let arr = Array1::from(xs.clone());
-    let qs = float_queries(&mut rng, &xs, 200);
+    let mut qs = float_queries(&mut rng, &xs, 200);
+    // the first and the last two intervals are always probed in depth
+    if n >= 4 {
+        for i in [0usize, 1, n - 3, n - 2] {
+            let (a, b) = (xs[i], xs[i + 1]);
+            for t in [0.02, 0.25, 0.5, 0.75, 0.98] {
+                let q = a + (b - a) * T::of(t);
+                if q >= a && q <= b {
+                    qs.push((q, "end-interval"));
+                }
+            }
+            qs.push((b.down(), "end-interval"));
+            qs.push((a.up(), "end-interval"));
+        }
+    }
     let h = hash_bits(&[&bits_of(&xs)], &[<T as Flt>::NAME]);
     ev.case(h, !is_uniform(&xs));
     ev.count("axis_class", &class);
     ev.count("elem", <T as Flt>::NAME);
-    ev.count("len_class", if n <= 3 { "2-3" } else if n <= 40 { "4-40" } else if n <= 1000 { "41-1000" } else { "1001-10000" });
+    ev.count("len_class", if n <= 3 { "2-3" } else if n <= 40 { "4-40" } else if n <= 1000 { "41-1000" } else if n <= 10000 { "1001-10000" } else { "32768-131072" });
     // observe (harness-side replica of the O(1) guess) how often the guess is the last index
     for (q, cl) in &qs {
         if *q > xs[0] && *q < xs[n - 1] {
